@@ -884,3 +884,32 @@ def call_result_assumption(body, assume):
         return None
 
     return decide
+
+
+def discr_switches_of(body, local):
+    """every `switch` on the discriminant of the value held in `local` - tested directly, through a reference
+    (`if let Some(x) = &v`), or after the whole value was moved / copied into another local: [(bb, terminator)]"""
+    aliases, work = {local}, [local]
+    while work:
+        a = work.pop()
+        for (b, i, node, how) in uses_of(body, a):
+            if i != TERM and "rv" in node and not node["lhs"][1]:
+                rv = node["rv"]
+                src = op_place(rv.get("op")) if rv["k"] == "use" else (P(rv["place"]) if rv["k"] == "ref" else None)
+                if src is not None and src[0] == a and not [p for p in src[1] if p != "*"] and node["lhs"][0] not in aliases:
+                    aliases.add(node["lhs"][0])
+                    work.append(node["lhs"][0])
+    out = []
+    for b in body.reachable:
+        t = body.term(b)
+        if t["k"] != "switch":
+            continue
+        pl = op_place(t["op"])
+        if pl is None:
+            continue
+        for s in body.stmts(b):
+            if "lhs" in s and P(s["lhs"]) == pl and s["rv"]["k"] == "discr":
+                dp = s["rv"]["place"]
+                if dp[0] in aliases and not [p for p in dp[1] if p != "*"]:
+                    out.append((b, t))
+    return out
